@@ -36,6 +36,8 @@ fn gcd(expr1: i64, expr2: i64) -> i64 {
     let mut a = expr1;
     let mut b = expr2;
     while b != 0 {
+        #[cfg(feature = "verif_hooks")]
+        crate::verif_hooks::tick(3);
         let remainder = a % b;
         a = expr2;
         b = remainder;
@@ -51,6 +53,8 @@ fn lcm(expr1: i64, expr2: i64) -> i64 {
 }
 
 pub fn eval(expr: Node) -> Result<i64, Box<dyn error::Error>> {
+    #[cfg(feature = "verif_hooks")]
+    crate::verif_hooks::tick(2);
     use self::Node::*;
     match expr {
         Number(i) => Ok(i),
@@ -70,6 +74,8 @@ pub fn eval(expr: Node) -> Result<i64, Box<dyn error::Error>> {
             if sub_result >= 0 {
                 let mut factorial_result = 1;
                 for i in 2..=(sub_result as usize) {
+                    #[cfg(feature = "verif_hooks")]
+                    crate::verif_hooks::tick(3);
                     factorial_result *= i as i64;
                 }
                 Ok(factorial_result)
